@@ -93,11 +93,13 @@ def theorem_names(props_file):
 def prove(prop, spec, tier):
     """make Props/Cxx.vo, then print the assumptions of every theorem in it through a generated audit file."""
     coq_makefile()
-    target = spec["props_file"][:-2] + ".vo"
+    pfiles = [spec["props_file"]] + list(spec.get("props_file_extra", []))
+    target = " ".join(f[:-2] + ".vo" for f in pfiles)
     if tier == "thorough":
         pass  # a clean rebuild is done by `make clean` in thorough_setup (see main)
     rc, log = sh("make -j16 %s" % target, cwd=COQ, timeout=2400)
-    names = theorem_names(spec["props_file"])
+    names_by_file = [(f, theorem_names(f)) for f in pfiles]
+    names = [n for _, ns in names_by_file for n in ns]
     result = {"target": target, "obligations": len(names), "discharged": 0, "failed": [], "assumptions": {},
               "log_tail": log[-3000:], "ok": rc == 0}
     if rc != 0:
@@ -105,12 +107,12 @@ def prove(prop, spec, tier):
         result["failed"] = ["%s:%s" % x for x in m] or ["make failed"]
         # which theorems still go through?  try to locate the failing file; all theorems count as undischarged
         return result
-    mod = "MDK." + spec["props_file"][:-2].replace("/", ".")
     adir = CACHE + "/audit"
     os.makedirs(adir, exist_ok=True)
     af = "%s/Audit_%s.v" % (adir, prop)
     with open(af, "w") as f:
-        f.write("Require Import %s.\n" % mod)
+        for pf in pfiles:
+            f.write("Require Import %s.\n" % ("MDK." + pf[:-2].replace("/", ".")))
         for n in names:
             f.write('Goal True. idtac "@@BEGIN %s". Abort.\nPrint Assumptions %s.\n' % (n, n))
     rc, out = sh("coqc -Q %s MDK %s" % (COQ, af), cwd=adir, timeout=600)
@@ -141,14 +143,16 @@ def prove(prop, spec, tier):
 
 
 # ------------------------------------------------------------------ harness / model
-def build_harness():
+def build_harness(bins):
+    """Build only the harness binaries this property needs (a broken unrelated binary must not break the check)."""
     lock_src, lock_dst = REPO + "/Cargo.lock", V + "/harness/Cargo.lock"
     if not os.path.exists(lock_dst):
         shutil.copy(lock_src, lock_dst)
-    rc, out = sh("cargo build --offline --bins", cwd=V + "/harness", timeout=3000)
+    cmd = "cargo build --offline " + " ".join("--bin " + b for b in sorted(set(bins)))
+    rc, out = sh(cmd, cwd=V + "/harness", timeout=3000)
     if rc != 0 and "Cargo.lock" in out:
         shutil.copy(lock_src, lock_dst)
-        rc, out = sh("cargo build --offline --bins", cwd=V + "/harness", timeout=3000)
+        rc, out = sh(cmd, cwd=V + "/harness", timeout=3000)
     return rc == 0, out[-4000:]
 
 
@@ -243,7 +247,7 @@ def run_check(prop, tier, seed, replay=None):
         pr = prove(prop, spec, tier) if not replay else {"ok": True, "obligations": 0, "discharged": 0, "assumptions": {}, "failed": [], "target": ""}
         if not pr["ok"]:
             tie_breaks.append(("proof:" + spec["props_file"], "; ".join(pr["failed"])[:1500] + "\n" + pr.get("log_tail", "")[-1200:]))
-        hb_ok, hb_log = build_harness() if spec.get("harness") else (True, "")
+        hb_ok, hb_log = build_harness([h["bin"] for h in spec["harness"]]) if spec.get("harness") else (True, "")
         mb_ok, mb_log = build_model() if any(h.get("model") for h in spec.get("harness", [])) else (True, "")
     if not hb_ok:
         tie_breaks.append(("harness-build", hb_log[-1500:]))
